@@ -27,6 +27,7 @@ import LinVerif.Model.IdAssignCfg
 import LinVerif.Lemmas.C09Kv
 import LinVerif.Lemmas.C09KvLookup
 import LinVerif.Lemmas.C09KvStale
+import LinVerif.Lemmas.C09Compact
 import LinVerif.Lemmas.C09Hist
 
 namespace LinVerif.Props.C09
@@ -105,6 +106,20 @@ theorem kv_locked_recheck_tie :
         ["defer:lock.Unlock", "s.getValueFromMem", "s.getValueFromMem", "v1.NewIndexKVReader", "reader.GetBucket",
          "defer:bucket.Release", "bucket.GetValue", "mutable.Get", "make", "mutable.Put"] ∧
       C09.kvCreateValueReaderArgs = ["s.snapshot"] := by decide
+
+/-- memdb `GetOrCreateTimeSeriesIndex`: lock-free Load, then the second Load + Store (`getOrCreateTimeSeriesIndex`)
+under `idb.lock` taken with `Lock()` — or with `RLock()`, which `memdb_verdict` then refutes -/
+theorem memdb_lock_tie :
+    C09.memdbGetOrCreateTSICalls =
+      ["row.NameHash", "timeSeriesIndexes.Load", if currentCfg.memdbExclusive then "lock.Lock" else "lock.RLock",
+       if currentCfg.memdbExclusive then "defer:lock.Unlock" else "defer:lock.RUnlock", "idb.getOrCreateTimeSeriesIndex"] ∧
+    C09.memdbGetOrCreateTSIInnerCalls.filter (· ≠ "verifhook.Yield") = ["timeSeriesIndexes.Load", "NewTimeSeriesIndex", "timeSeriesIndexes.Store"] := by
+  decide
+
+/-- the compaction merger: a NEW TrieBucket per merged bucket (`compactFiles`, not `compactFilesLeaky`) -/
+theorem kv_merger_tie :
+    C09.kvMergerMergeCalls = ["model.NewTrieBucket", "trieBucket.Unmarshal", "kvWriter.Prepare", "trieBucket.Write", "kvWriter.Commit"] := by
+  decide
 
 /-- the lock-free lookup path is where the bucket cache is read and filled; Flush purges it under the lock -/
 theorem kv_bucket_cache_tie :
@@ -230,6 +245,30 @@ theorem gen_ignores_cache (v : SchemaVariant) (lim : Limits) (s : SchemaStore) (
     (genTagKey v lim (s.withCache cache) ctr m x).2 = (genTagKey v lim s ctr m x).2 := by
   rw [genField_withCache, genTagKey_withCache]
   exact ⟨rfl, rfl⟩
+
+/-! ### compaction of a dictionary family -/
+
+/-- **compaction preserves the id map**: the family produced by the compaction job (one output file, the
+merger called once per bucket with that bucket's blocks of all inputs) answers every lookup exactly as the
+input files did — no name loses its id, no name gains one, no id moves to another bucket. In the node
+model compaction is therefore the identity on `KvStore.disk` (= `readFiles` of the files), and `stable`,
+`injective`, `recover_ids` hold with compactions anywhere in the history. -/
+theorem compaction_preserves_ids (fs : KvFiles) (b n : Nat) : readFiles (compactFiles fs) b n = readFiles fs b n :=
+  readFiles_compact fs b n
+
+/-- a flush commit is a new newest file of the family -/
+theorem commit_is_new_file (d : Dict) (fs : KvFiles) : readFiles (d :: fs) = d.over (readFiles fs) := rfl
+
+/-! ### tsdb/memdb: one memory index per metric -/
+
+/-- all callers of `GetOrCreateTimeSeriesIndex` for one new metric get the same TimeSeriesIndex object —
+every schedule of any number of callers — when `idb.lock` is taken exclusively -/
+theorem memdb_one_index (sched : List (Option Nat)) (a b : Nat)
+    (ha : MPc.done a ∈ (mrun true {} sched).threads) (hb : MPc.done b ∈ (mrun true {} sched).threads) : a = b := by
+  have h := memOk_run sched {} ⟨fun _ hx => (by cases hx), fun _ hx => (by cases hx)⟩
+  have h1 := h.2 _ ha a rfl
+  have h2 := h.2 _ hb b rfl
+  rw [h1] at h2; cases h2; rfl
 
 /-! ### ids used by recovered index entries -/
 
@@ -452,6 +491,17 @@ theorem schema_cache_race_lindb :
     let nd := run {} ({} : Node) [.metric 97 0 0, .field 0 1, .metaPrepare, .metaFlush]
     (nd.schemaCacheRace { schema := .lookupLocked } 0 2 3).2 = (.id 1, .id 2) := by decide
 
+/-- a merger that keeps one working bucket for the whole job: name 5 exists only in bucket 0 (id 3), after
+the compaction bucket 1 answers id 3 for it as well -/
+theorem compaction_leaky :
+    let f : Dict := fun b n => if b = 0 ∧ n = 5 then some 3 else if b = 1 ∧ n = 6 then some 4 else none
+    readFiles [f] 1 5 = none ∧ readFiles (compactFilesLeaky [f] (fun b => List.range b)) 1 5 = some 3 := by decide
+
+/-- memdb with a shared lock (`RLock`) around the second check + store: A is between its check and its
+store, B checks and stores, A stores — two objects for one metric -/
+theorem memdb_shared_lock :
+    (mrun false {} [none, none, some 0, some 0, some 1, some 1, some 1, some 0]).threads = [.done 1, .done 0] := by decide
+
 /-- the history of the witness case: the tag value `1` of tag key 0 is created after the last metadata
 flush (Sync), used by a series, the shard's index is flushed, the node is reopened -/
 def unsyncedHistory : List Op :=
@@ -542,6 +592,18 @@ theorem bucket_cache_verdict : BucketCacheVerdict currentCfg.kvCacheAddGuarded :
   | false =>
     show (kexecStale _ _ _).threads = _
     decide
+
+/-- what the lock kind of memdb's `GetOrCreateTimeSeriesIndex` gives -/
+def MemdbVerdict : Bool → Prop
+  | true => ∀ (sched : List (Option Nat)) (a b : Nat),
+      MPc.done a ∈ (mrun true {} sched).threads → MPc.done b ∈ (mrun true {} sched).threads → a = b
+  | false => (mrun false {} [none, none, some 0, some 0, some 1, some 1, some 1, some 0]).threads = [.done 1, .done 0]
+
+/-- **memdb_verdict**: decided for the lock /repo's `GetOrCreateTimeSeriesIndex` takes now -/
+theorem memdb_verdict : MemdbVerdict currentCfg.memdbExclusive := by
+  cases h : currentCfg.memdbExclusive with
+  | true => exact memdb_one_index
+  | false => exact Neg.memdb_shared_lock
 
 /-- what lookup ‖ flush says about the order of the two lookups -/
 def LookupVerdict : Bool → Prop
